@@ -94,6 +94,17 @@ CHECKS["C08"] = ("proof",
     "every other entry leaves data/stamp untouched (frame).",
     "5/C08", E2NOTE + " Exactly-once drop relies on Rust's ownership semantics given the absence of unsafe/leak primitives (C18).", "deny-list call rules + field-site inventory + frame/drop events of the abstract interpreter")
 
+CHECKS["C14"] = ("other",
+    "Partial claim, structural necessary conditions only: confinement of printed ids to self.id and the Start payloads of one Traverse from self.id, open/close pairing on the Start/End arms, "
+    "last-sibling flag = next_sibling().is_none() of the opened node, agreement and documented values of the four guide-string tables (evaluated by E2), Display/Debug body identity. "
+    "The exact text layout for all trees and payloads and panic-freedom of the indent arithmetic are NOT decided and not claimed.",
+    "5/C14", "Relies on C09 for what the Traverse yields; the IndentWriter line state machine is outside the decided part.", "origin/dominance rules over MIR + constant tables by abstract evaluation + canonical-MIR comparison")
+CHECKS["C15"] = ("other",
+    "Partial claim, structural necessary conditions only: the generated code interpolates the arena and root expressions exactly once each (arena first), each node expression exactly once, "
+    "constructs each action kind at one site, and names only append_value/new_node/get/parent. That the built tree's nesting and order equal the literal for every input (the flattening "
+    "stack machine) is NOT decided and not claimed.",
+    "5/C15", "quote!/syn trusted; the emitted API calls are covered by C03/C07.", "origin and call-site rules over the proc-macro's MIR, identifier constants read from quote! expansions")
+
 PENDING = "check under construction in this build round (DESIGN.md section 10); not claimed until its engine part exists"
 
 NOT_APPLICABLE = {}
